@@ -1,263 +1,9 @@
+mod configs;
 mod model;
+use configs::configs;
 use mc::report::{load_replay, run_replay};
 use mc::{Bounds, Known, Report, RunStats};
 use model::*;
-
-const MAX: u128 = u128::MAX;
-
-fn kinds(l: &[&'static str]) -> std::collections::BTreeSet<&'static str> {
-    l.iter().copied().collect()
-}
-
-const ALL_KINDS: [&str; 10] = [
-    "Transfer", "Send", "Burn", "Mint", "Inc", "Dec", "TransferFrom", "SendFrom", "BurnFrom", "UpdateMinter",
-];
-
-/// (configuration, depth bound) pairs for a property and tier
-fn configs(prop: &str, thorough: bool) -> Vec<(Cfg, Option<usize>)> {
-    let mut out: Vec<(Cfg, Option<usize>)> = vec![];
-    match prop {
-        "C01" => {
-            let p = Props { c01: true, ..Default::default() };
-            // closed systems (capped supply, capped grants): fixpoint
-            let mints: Vec<(&str, Option<(u8, Option<u128>)>, Option<u128>)> = vec![
-                ("nomint", None, None),
-                ("cap4", Some((3, Some(4))), None),
-                ("cap=initial", Some((3, Some(3))), None),
-                ("uncapped", Some((3, None)), Some(4)),
-            ];
-            let inits: Vec<(&str, Vec<(u8, u128)>)> = vec![
-                ("A3", vec![(0, 3)]),
-                ("A2B1", vec![(0, 2), (1, 1)]),
-                ("empty", vec![]),
-            ];
-            for (mn, mint, scap) in &mints {
-                for (inn, init) in &inits {
-                    if *mn == "cap=initial" && *inn == "empty" {
-                        continue;
-                    }
-                    if !thorough && (*inn == "A3" && *mn != "cap4") {
-                        continue;
-                    }
-                    let mut c = Cfg::base(&format!("C01/closed/{inn}/{mn}"));
-                    c.props = p.clone();
-                    c.initial = init.clone();
-                    c.mint = *mint;
-                    c.supply_cap = *scap;
-                    c.senders = vec![0, 1, 2];
-                    c.recipients = vec![0, 1, 2];
-                    c.owners = if thorough { vec![0, 1] } else { vec![0] };
-                    c.spenders = vec![1, 2];
-                    c.minters = vec![3, 0];
-                    c.mint_to = vec![0, 2];
-                    c.amounts = vec![0, 1, 2, 3];
-                    c.mint_amounts = vec![0, 1, 2, 5];
-                    c.grant_cap = Some(if thorough { 3 } else { 2 });
-                    c.kinds = kinds(&ALL_KINDS);
-                    out.push((c, None));
-                }
-            }
-            // instantiate messages that must be refused
-            for (n, init, mint) in [
-                ("dup", vec![(0u8, 1u128), (0, 1)], None),
-                ("dup3", vec![(0, 1), (1, 1), (0, 2)], None),
-                ("overflow", vec![(0, MAX), (1, 1)], None),
-                ("overflow2", vec![(0, MAX - 1), (1, 1), (2, 1)], Some((3u8, None))),
-                ("cap<initial", vec![(0, 3)], Some((3, Some(2u128)))),
-            ] {
-                let mut c = Cfg::base(&format!("C01/refuse/{n}"));
-                c.props = p.clone();
-                c.initial = init;
-                c.mint = mint;
-                c.inst_must_fail = true;
-                out.push((c, Some(0)));
-            }
-            // boundary amounts: depth-bounded
-            for (n, init, mint) in [
-                ("Amax", vec![(0u8, MAX)], Some((3u8, None))),
-                ("Amax-1,B1", vec![(0, MAX - 1), (1, 1)], Some((3, None))),
-                ("Amax-2", vec![(0, MAX - 2)], Some((3, Some(MAX)))),
-            ] {
-                let mut c = Cfg::base(&format!("C01/edge/{n}"));
-                c.props = p.clone();
-                c.initial = init;
-                c.mint = mint;
-                c.senders = vec![0, 1];
-                c.recipients = vec![0, 1];
-                c.owners = vec![0];
-                c.spenders = vec![1];
-                c.minters = vec![3];
-                c.mint_to = vec![0, 1];
-                c.amounts = vec![0, 1, MAX - 1, MAX];
-                c.mint_amounts = vec![0, 1, 2, MAX];
-                c.grant_cap = None;
-                c.kinds = kinds(&ALL_KINDS);
-                out.push((c, Some(if thorough { 5 } else { 3 })));
-            }
-        }
-        "C02" => {
-            let p = Props { c02: true, ..Default::default() };
-            let exps = vec![
-                ExpA::Unset,
-                ExpA::Never,
-                ExpA::H(H0),
-                ExpA::H(H0 + 1),
-                ExpA::H(H0 + 2),
-                ExpA::T(T0),
-                ExpA::T(T0 + DT),
-            ];
-            // actors: A(owner) B S1 S2 R(receiver contract address)
-            let actors = vec!["A", "B", "S1", "S2", "R"];
-            let mk = |name: &str| {
-                let mut c = Cfg::base(name);
-                c.actors = actors.clone();
-                c.props = p.clone();
-                c.kinds = kinds(&["Transfer", "Send", "Burn", "Inc", "Dec", "TransferFrom", "SendFrom", "BurnFrom"]);
-                c.hmax = H0 + 3;
-                c
-            };
-            {
-                // closed: one owner, two spenders, all expiry kinds, every block up to past every expiry
-                let mut c = mk("C02/closed/owner-A/S1,S2");
-                c.initial = vec![(0, 3)];
-                c.senders = vec![0, 2];
-                c.recipients = vec![1, 4];
-                c.owners = vec![0];
-                c.spenders = vec![2, 3];
-                c.amounts = vec![0, 1, 2, 3];
-                c.exps = if thorough { exps.clone() } else { vec![ExpA::Unset, ExpA::H(H0), ExpA::H(H0 + 2), ExpA::T(T0 + DT)] };
-                c.payloads = vec![0, 1];
-                c.grant_cap = Some(if thorough { 3 } else { 2 });
-                c.hmax = if thorough { H0 + 3 } else { H0 + 2 };
-                out.push((c, None));
-            }
-            {
-                // two owners that are also each other's spenders (A<->B), stranger S1 tries everything
-                let mut c = mk("C02/closed/A<->B");
-                c.initial = vec![(0, 2), (1, 1)];
-                c.senders = vec![0, 1, 2];
-                c.recipients = vec![0, 2];
-                c.owners = vec![0, 1, 2];
-                c.spenders = vec![0, 1, 2];
-                c.amounts = vec![0, 1, 2];
-                c.exps = vec![ExpA::Unset, ExpA::H(H0 + 1)];
-                c.grant_cap = Some(2);
-                c.hmax = H0 + 1;
-                c.kinds = kinds(&["Transfer", "Burn", "Inc", "Dec", "TransferFrom", "BurnFrom"]);
-                if !thorough {
-                    c.amounts = vec![0, 1, 2];
-                    c.owners = vec![0, 1];
-                    c.spenders = vec![0, 1, 2];
-                }
-                out.push((c, None));
-            }
-            {
-                // cumulative monitor (history in state): depth-bounded
-                let mut c = mk("C02/monitor/granted-vs-drawn");
-                c.initial = vec![(0, 3)];
-                c.senders = vec![0];
-                c.recipients = vec![1];
-                c.owners = vec![0];
-                c.spenders = vec![2];
-                c.amounts = vec![1, 2];
-                c.exps = vec![ExpA::Unset, ExpA::H(H0 + 1)];
-                c.grant_cap = None;
-                c.monitors = true;
-                c.hmax = H0 + 2;
-                c.kinds = kinds(&["Transfer", "Inc", "Dec", "TransferFrom", "BurnFrom", "SendFrom"]);
-                out.push((c, Some(if thorough { 8 } else { 6 })));
-            }
-            {
-                // boundary amounts
-                let mut c = mk("C02/edge/u128");
-                c.initial = vec![(0, MAX)];
-                c.senders = vec![0, 2];
-                c.recipients = vec![1];
-                c.owners = vec![0];
-                c.spenders = vec![2];
-                c.amounts = vec![0, 1, MAX - 1, MAX];
-                c.exps = vec![ExpA::Unset, ExpA::H(H0 + 1)];
-                c.grant_cap = None;
-                c.hmax = H0 + 1;
-                out.push((c, Some(if thorough { 5 } else { 4 })));
-            }
-        }
-        "C13" => {
-            let p = Props { c13: true, ..Default::default() };
-            // actors: M1 M2 M3 X A
-            let actors = vec!["M1", "M2", "M3", "X", "A"];
-            for (n, init, mint, scap, must_fail) in [
-                ("nominter", vec![(4u8, 2u128)], None, None, false),
-                ("uncapped", vec![(4, 2)], Some((0u8, None)), Some(5u128), false),
-                ("cap=initial", vec![(4, 2)], Some((0, Some(2u128))), None, false),
-                ("cap=initial+2", vec![(4, 2)], Some((0, Some(4))), None, false),
-                ("cap0-empty", vec![], Some((0, Some(0))), None, false),
-                ("cap<initial", vec![(4, 2)], Some((0, Some(1))), None, true),
-                ("capmax", vec![(4, MAX - 1)], Some((0, Some(MAX))), None, false),
-            ] {
-                let mut c = Cfg::base(&format!("C13/{n}"));
-                c.actors = actors.clone();
-                c.props = p.clone();
-                c.initial = init;
-                c.mint = mint;
-                c.supply_cap = scap;
-                c.inst_must_fail = must_fail;
-                c.senders = vec![4, 0];
-                c.recipients = vec![0, 4];
-                c.minters = if thorough { vec![0, 1, 2, 3] } else { vec![0, 1, 3] };
-                c.mint_to = vec![4, 0];
-                c.amounts = vec![1, 2];
-                c.mint_amounts = if n == "capmax" { vec![0, 1, 2, MAX] } else { vec![0, 1, 2, 3, MAX] };
-                c.kinds = kinds(&["Mint", "Burn", "UpdateMinter", "Transfer"]);
-                let depth = if n == "capmax" { Some(if thorough { 5 } else { 3 }) } else { None };
-                out.push((c, if must_fail { Some(0) } else { depth }));
-            }
-        }
-        "C19" => {
-            let p = Props { c19: true, ..Default::default() };
-            let actors = vec!["A", "B", "S1", "S2"];
-            {
-                let mut c = Cfg::base("C19/closed/A,B->B,S1(+migrate at every state)");
-                c.actors = actors.clone();
-                c.props = p.clone();
-                c.initial = vec![(0, 2), (1, 2)];
-                c.senders = vec![];
-                c.recipients = vec![3];
-                c.owners = vec![0, 1];
-                c.spenders = if thorough { vec![0, 1, 2] } else { vec![1, 2] };
-                c.amounts = vec![0, 1, 2];
-                c.exps = vec![ExpA::Unset, ExpA::Never, ExpA::H(H0 + 1), ExpA::T(T0 + 2 * DT)];
-                c.grant_cap = Some(2);
-                c.hmax = H0 + 2;
-                c.kinds = kinds(&["Inc", "Dec", "TransferFrom", "SendFrom", "BurnFrom"]);
-                c.migrate_probe = true;
-                if !thorough {
-                    c.exps = vec![ExpA::Unset, ExpA::H(H0 + 1)];
-                    c.hmax = H0 + 1;
-                }
-                out.push((c, None));
-            }
-            if thorough {
-                let mut c = Cfg::base("C19/closed/4-actors-all-pairs");
-                c.actors = actors.clone();
-                c.props = p.clone();
-                c.initial = vec![(0, 1), (1, 1)];
-                c.recipients = vec![3];
-                c.owners = vec![0, 1, 2];
-                c.spenders = vec![0, 1, 2, 3];
-                c.amounts = vec![1];
-                c.exps = vec![ExpA::Unset, ExpA::H(H0 + 1)];
-                c.grant_cap = Some(1);
-                c.hmax = H0 + 1;
-                c.kinds = kinds(&["Inc", "Dec", "TransferFrom", "BurnFrom"]);
-                c.migrate_probe = true;
-                out.push((c, None));
-            }
-        }
-        _ => {}
-    }
-    out
-}
 
 fn describe(prop: &str) -> (&'static str, &'static str) {
     match prop {
